@@ -68,6 +68,10 @@ def generate(ctx):
                 v = rng.choice(fac.SYNAPSES)
             else:
                 v = "float64"
+            if k in ("dt", "batchsz", "delay", "duration") and rng.random() < 0.2:
+                # an assignment the setter documents as invalid comes first: it is refused, and a refused assignment leaves every
+                # reported value (and the behaviour) as it was
+                seq.append([k, {"dt": rng.choice([0.0, -1.0]), "batchsz": rng.choice([0, -2]), "delay": -1.0, "duration": -1.0}[k], "invalid"])
             seq.append([k, v])
         d["seq"] = seq
         yield d
@@ -346,8 +350,23 @@ def run_case(ctx, desc):
     except Exception as e:  # noqa: BLE001
         return ctx.violation(ctx.exc_signature(e, f"construct.{kind}"), f"{type(e).__name__}: {str(e)[:160]}", desc)
     cfg = dict(desc["c0"])
-    for si, (k, v) in enumerate(desc["seq"]):
+    for si, (k, v, *flag) in enumerate(desc["seq"]):
         rdesc = {**desc, "seq": desc["seq"][: si + 1]}
+        if flag:
+            before = ad.observe(A)
+            try:
+                ad.set(A, k, v)
+            except (ValueError, TypeError, RuntimeError):
+                ctx.count("refused_assignments_checked")
+                after = ad.observe(A)
+                for name in before:
+                    if before[name] != after.get(name):
+                        return ctx.violation(f"{kind}.refused_set_{k}.changed_reported_value.{name}",
+                                             f"the refused assignment {k}={v} changed {name}: {before[name]} -> {after.get(name)}", rdesc)
+                continue
+            # accepted after all: outside what the property speaks about, and the configuration is now unknown
+            ctx.count("invalid_assignments_accepted")
+            return
         if desc.get("used_before") and si in (0, 2):
             try:
                 # learned adaptation is not part of the cleared state: keep it frozen while the component is being used
@@ -408,7 +427,7 @@ def run_case(ctx, desc):
         k0 = sorted(diff)[0]
         fields = [f for f in ("recordsz", "dt", "duration", "inclusive", "dtype") if (ra.get(k0) or {}).get(f) != (rb.get(k0) or {}).get(f)]
         last = desc["seq"][-1][0] if desc["seq"] else "-"
-        keyset = sorted({k for k, _ in desc["seq"]})
+        keyset = sorted({e[0] for e in desc["seq"]})
         return ctx.violation(f"{kind}.internal_history_sized_differently.{'+'.join(fields)}",
                              f"record {k0}: setter-built {ra.get(k0)} vs constructor-built {rb.get(k0)}", desc)
     try:
@@ -437,6 +456,6 @@ def run_case(ctx, desc):
                                  f"output {i}: setter-built gives {a.dtype}, constructor-built {b.dtype}", desc)
         same = a.shape == b.shape and (bool(torch.equal(a, b)) if a.dtype == torch.bool else bool(torch.allclose(a, b, rtol=1e-6, atol=1e-6, equal_nan=True)))
         if not same:
-            keyset = sorted({k for k, _ in desc["seq"]})
+            keyset = sorted({e[0] for e in desc["seq"]})
             return ctx.violation(f"{kind}.outputs_differ_from_constructor_built",
                                  f"output {i} from a cleared state differs between setter-built and constructor-built", desc)
